@@ -184,7 +184,7 @@ def extra_checks(pid, tier, seed, exe, workdir):
 EXTRA = {}
 
 HOOK_COMMITS = ["ec0e30b"]
-FIX_COMMITS = ["f38d614", "53a1696", "ab48bfa", "c882549", "be58dcf", "e268d80", "a281c03", "d168209", "866ad45", "ff93241", "ff97c81", "1d033aa", "67b591f", "56a0235", "341c413"]
+FIX_COMMITS = ["f38d614", "53a1696", "ab48bfa", "c882549", "be58dcf", "e268d80", "a281c03", "d168209", "866ad45", "ff93241", "ff97c81", "1d033aa", "67b591f", "56a0235", "341c413", "4c925f3"]
 
 _MODELLED = ("Modelled, not verified: the C++ itself; the theorems are about the Gallina model "
              "(coq/theories/Model), tied to the code only by the correspondence run. ")
@@ -255,7 +255,7 @@ PROPS["C19"] = dict(
                "EV+/EV* edge values are covered through C03-style scripts only.")
 
 PROPS["C18"] = dict(
-    gens=[("mmhist", gen.gen_C18, 0.8), ("growing-maximum", gen.gen_C18_growing, 0.6), ("capacity-sized", gen.gen_C18_big, 0.5)], quick=40, thorough=600,
+    gens=[("mmhist", gen.gen_C18, 0.8), ("growing-maximum", gen.gen_C18_growing, 0.6), ("capacity-sized", gen.gen_C18_big, 0.5), ("array-tail", gen.gen_C18_tail, 0.5)], quick=40, thorough=600,
     rule="random request/recycle histories (5 styles x 2 granularities x 5 recycle orders); every live chunk is "
          "filled with a per-chunk sentinel re-checked after every few calls; distinct_nontrivial = distinct "
          "(style, address, size) responses with a non-null address",
@@ -275,7 +275,7 @@ _AUDIT_RULE = ("mixed histories (constructions, apply operations across forests,
                "and distinct canonical diagrams")
 
 PROPS["C02"] = dict(
-    gens=[("hist", gen.gen_hist, 1.0)], quick=40, thorough=500, rule=_AUDIT_RULE, uses_gen=True,
+    gens=[("hist", gen.gen_hist, 1.0), ("node-churn", gen.gen_C02_nodes_mm, 0.3), ("node-tail", gen.gen_C02_tail, 0.4)], quick=40, thorough=500, rule=_AUDIT_RULE, uses_gen=True,
     level_text="Proved: mk/apply/build/of_fun only ever return diagrams that satisfy the reduction-rule clauses "
                "(reducedb) for all inputs; the store-level clauses are the executable Gallina audit (20 clauses) "
                "run on the implementation's own node dump at every quiescent point of generated histories; the "
@@ -343,7 +343,7 @@ PROPS["C11"] = dict(
     level_note=_MODELLED + "The iterator's cursor state machine is not mirrored (sequence disagreements expose "
                "resumption bugs); long/double overflow of cardinalities not modelled.")
 PROPS["C15"] = dict(
-    gens=[("index", gen.gen_C15, 1.0)], quick=50, thorough=500,
+    gens=[("index", gen.gen_C15, 1.0), ("huge-product-sets", gen.gen_C15_big, 0.3)], quick=50, thorough=500,
     level_text="Proved: entry i of the index table is None when the set's value there is 0 and otherwise the "
                "number of preceding members; indices are below the member count; looking an index up returns the "
                "member whose table entry is that index, succeeds exactly for 0 <= i < n, and n is the number of "
